@@ -67,8 +67,26 @@ func c14FinalScreen(s *Session, slave *os.File, id string) ([]byte, bool) {
 	if slave == nil {
 		return s.Screen(), false
 	}
-	if _, err := slave.Write(mark); err != nil {
-		return s.Screen(), false
+	// A ctrl-s byte typed while the line discipline was cooked (a child owned the terminal, or fzf had already restored
+	// it on its way out) has stopped the terminal's output (XOFF): a write through the slave would then block for good --
+	// and with it the worker, and the whole run.  That state is the typist's doing, not a mode fzf changed: restart the
+	// output first, and never wait for the write longer than the deadline.
+	// TCOON only undoes TCOOFF; output stopped by a received STOP character is restarted by the START character
+	// (ctrl-q), which the line discipline consumes as flow control when IXON is set (the cooked default) -- and when
+	// IXON is not set the output cannot have been stopped that way.
+	unix.IoctlSetInt(int(slave.Fd()), unix.TCXONC, unix.TCOON)
+	if ta, err := unix.IoctlGetTermios(int(slave.Fd()), unix.TCGETS); err == nil && ta.Iflag&unix.IXON != 0 {
+		c14SendKeys(s, slave, []byte{ta.Cc[unix.VSTART]})
+	}
+	wrote := make(chan error, 1)
+	go func() { _, err := slave.Write(mark); wrote <- err }()
+	select {
+	case err := <-wrote:
+		if err != nil {
+			return s.Screen(), false
+		}
+	case <-time.After(10 * time.Second):
+		return s.Screen(), false // (the write is released when the caller closes the slave)
 	}
 	deadline := time.Now().Add(10 * time.Second)
 	for {
